@@ -440,15 +440,42 @@ func (i *interpreter) fromJSON(t types.Type, p *value, j *jv, depth int) *jsonEr
 		if j.kind != jArr {
 			return &jsonErr{"cannot unmarshal into slice"}
 		}
-		out := make([]value, len(j.arr))
+		// As encoding/json: the existing slice is reused.  Elements are decoded IN
+		// PLACE into the existing backing array (a non-nil pointer element is
+		// followed, not replaced), the slice is grown by 1.5x when full, and
+		// truncated to the number of decoded elements at the end.
+		cur, _ := (*p).([]value)
 		var first *jsonErr
 		for k, e := range j.arr {
-			out[k] = zero(u.Elem())
-			if err := i.fromJSON(u.Elem(), &out[k], e, depth+1); err != nil && first == nil {
+			if k >= cap(cur) {
+				newcap := cap(cur) + cap(cur)/2
+				if newcap < 4 {
+					newcap = 4
+				}
+				nv := make([]value, len(cur), newcap)
+				copy(nv, cur)
+				full := nv[:newcap]
+				for idx := len(cur); idx < newcap; idx++ {
+					full[idx] = zero(u.Elem())
+				}
+				cur = nv
+			}
+			if k >= len(cur) {
+				cur = cur[:k+1]
+				if cur[k] == nil {
+					cur[k] = zero(u.Elem())
+				}
+			}
+			if err := i.fromJSON(u.Elem(), &cur[k], e, depth+1); err != nil && first == nil {
 				first = err
 			}
 		}
-		*p = out
+		if len(j.arr) == 0 {
+			cur = []value{}
+		} else {
+			cur = cur[:len(j.arr)]
+		}
+		*p = cur
 		return first
 	case *types.Map:
 		if j.kind == jNull {
